@@ -551,8 +551,11 @@ pub fn fam_serial(tier: Tier) -> Vec<Config> {
     let mut out = Vec::new();
     let d = Duration::from_secs(5);
     // where the serial tag sits
-    for place in ["scenario", "rule", "feature", "custom"] {
+    for place in ["scenario", "rule", "feature", "custom", "feature-rule"] {
         for nconc in 1..=3usize {
+            if place == "feature-rule" && nconc == 3 {
+                continue;
+            }
             for nser in 1..=2usize {
                 for conc in [Some(1usize), Some(2), Some(3), None] {
                     for layout in ["same", "serial-first", "serial-last"] {
@@ -602,6 +605,12 @@ pub fn fam_serial(tier: Tier) -> Vec<Config> {
                                     "feature" => FeatSpec {
                                         tags: vec![tagname.into()],
                                         scenarios: ser.clone(),
+                                        ..Default::default()
+                                    },
+                                    // the tag on the feature, the scenarios inside an untagged rule
+                                    "feature-rule" => FeatSpec {
+                                        tags: vec![tagname.into()],
+                                        rules: vec![RuleSpec { tags: vec![], bg: vec![], scenarios: ser.clone() }],
                                         ..Default::default()
                                     },
                                     _ => feat(ser.clone()),
@@ -861,6 +870,50 @@ pub fn fam_ff(tier: Tier) -> Vec<Config> {
             }
         }
     }
+    // every kind of final failure trips fail-fast, not only a panicking step
+    for kind in ["ambiguous", "before", "after", "world-err", "world-panic"] {
+        for failing in 0..3usize {
+            for conc in [Some(1usize), Some(2)] {
+                for retry in 0..=1usize {
+                    if kind.starts_with("world") && (failing != 0 || conc != Some(1)) {
+                        // World::new outcomes are planned by global call index
+                        continue;
+                    }
+                    let mut cfg = base(String::new());
+                    let mut scs: Vec<ScenSpec> = (0..3).map(|_| scen(&[], &[M])).collect();
+                    if kind == "ambiguous" {
+                        scs[failing] = scen(&[], &[StepKind::Ambiguous, M]);
+                    }
+                    let (a, b) = scs.split_at(1);
+                    cfg.feats = vec![feat(a.to_vec()), feat(b.to_vec())];
+                    cfg.items = vec![Item::Feat(0), Item::Feat(1)];
+                    cfg.before = kind == "before";
+                    cfg.after = kind == "after";
+                    cfg.conc_builder = Some(conc);
+                    cfg.fail_fast_builder = true;
+                    if retry > 0 {
+                        cfg.retries_builder = Some(retry);
+                    }
+                    cfg.plan.gates = GateMode::Steps;
+                    let infos = cfg.scen_infos();
+                    match kind {
+                        "before" | "after" => {
+                            cfg.plan
+                                .outcomes
+                                .insert(format!("{kind} {}", infos[failing].name), vec![Outcome::PanicString]);
+                        }
+                        "world-err" => cfg.plan.world_new = vec![WOutcome::Err; retry + 1],
+                        "world-panic" => cfg.plan.world_new = vec![WOutcome::Panic; retry + 1],
+                        _ => {}
+                    }
+                    cfg.bound = Some(if tier == Tier::Quick { 2 } else { 3 });
+                    cfg.max_execs = if tier == Tier::Quick { 2_000 } else { 100_000 };
+                    cfg.name = format!("ff/kind-{kind}|f{failing}|c{conc:?}|r{retry}");
+                    out.push(cfg);
+                }
+            }
+        }
+    }
     out
 }
 
@@ -1005,8 +1058,15 @@ pub fn fam_verdict(tier: Tier) -> Vec<Config> {
             for n in 0..=2usize {
                 for b_kind in [M, StepKind::NoMatch] {
                     for perr in perrs {
-                        for (ff, lazy) in ffs.iter().flat_map(|f| [(f, false), (f, true)]) {
+                        for (ff, lazy, swap) in
+                            ffs.iter().flat_map(|f| [(f, false, false), (f, true, false), (f, false, true)])
+                        {
                             if lazy && (perr.is_none() || n > 0) {
+                                continue;
+                            }
+                            // `swap`: the retried scenario sits behind the bystander, so a
+                            // normalizing writer holds its attempts back while the bystander runs
+                            if swap && (n == 0 || allow != "none" || b_kind != M) {
                                 continue;
                             }
                             let mut tags: Vec<String> = vec![];
@@ -1035,7 +1095,11 @@ pub fn fam_verdict(tier: Tier) -> Vec<Config> {
                                 }
                             };
                             let mut cfg = base(String::new());
-                            cfg.feats = vec![f1, feat(vec![scen(&[], &[b_kind])])];
+                            cfg.feats = if swap {
+                                vec![feat(vec![scen(&[], &[b_kind])]), f1]
+                            } else {
+                                vec![f1, feat(vec![scen(&[], &[b_kind])])]
+                            };
                             cfg.items = vec![Item::Feat(0), Item::Feat(1)];
                             match perr {
                                 Some(false) => cfg.items.push(Item::Err("e-last".into())),
@@ -1052,7 +1116,7 @@ pub fn fam_verdict(tier: Tier) -> Vec<Config> {
                                 cfg.bound = Some(1);
                             }
                             cfg.plan.gates = GateMode::Steps;
-                            let info = cfg.scen_infos()[0].clone();
+                            let info = cfg.scen_infos()[usize::from(swap)].clone();
                             let keys = callable_keys(&info, true, true);
                             let mut firsts = vec![Fault::None];
                             for (i, (_, kind)) in keys.iter().enumerate() {
@@ -1083,11 +1147,12 @@ pub fn fam_verdict(tier: Tier) -> Vec<Config> {
                                 let mut c = cfg.clone();
                                 c.plan.outcomes = outcomes;
                                 c.plan.world_new = worlds;
-                                c.max_execs = 200;
+                                c.max_execs = if swap { 400 } else { 200 };
                                 c.name = format!(
-                                    "verdict/{second:?}|allow-{allow}|n{n}|b{b_kind:?}|perr{perr:?}|ff{}|lazy{}|{chain:?}",
+                                    "verdict/{second:?}|allow-{allow}|n{n}|b{b_kind:?}|perr{perr:?}|ff{}|lazy{}|swap{}|{chain:?}",
                                     u8::from(*ff),
-                                    u8::from(lazy)
+                                    u8::from(lazy),
+                                    u8::from(swap)
                                 );
                                 out.push(c);
                             }
@@ -1366,6 +1431,96 @@ pub fn fam_dup(tier: Tier) -> Vec<Config> {
     out
 }
 
+// ---------------------------------------------------------------- family big
+
+/// Larger, irregular runs explored with few deviations: three features, rules
+/// with their own backgrounds, a 12-scenario feature (two-digit names), a
+/// third retry, a delayed retry inside a rule, a serial scenario, an unmatched
+/// and an ambiguous step; and the default / unlimited concurrency limits
+/// observed with more than 64 ready scenarios.
+pub fn fam_big(tier: Tier) -> Vec<Config> {
+    let mut out = Vec::new();
+    let limits: [(Option<Option<usize>>, Option<usize>); 5] =
+        [(None, None), (Some(Some(1)), None), (Some(Some(3)), None), (Some(None), None), (Some(Some(5)), Some(2))];
+    for (b, c) in limits {
+        for hooks in [false, true] {
+            for ff in [false, true] {
+                for lazy in [false, true] {
+                    for gated in [false, true] {
+                        if gated && (lazy || b == Some(None) || (b, c) == (None, None)) {
+                            continue;
+                        }
+                        let mut cfg = base(String::new());
+                        let mut f1: Vec<ScenSpec> = (0..12).map(|_| scen(&[], &[M])).collect();
+                        f1[3] = scen(&[], &[M, M, M]);
+                        f1[6] = scen(&["serial"], &[M]);
+                        f1[10] = scen(&["retry(3)"], &[M, M]);
+                        f1[11] = scen(&[], &[M, StepKind::NoMatch, M]);
+                        let r1 = RuleSpec { tags: vec![], bg: vec![M], scenarios: vec![scen(&[], &[]), scen(&[], &[M])] };
+                        let r2 = RuleSpec {
+                            tags: vec!["retry(3).after(2s)".into()],
+                            bg: vec![M, M],
+                            scenarios: vec![scen(&[], &[M]), scen(&[], &[M, M])],
+                        };
+                        cfg.feats = vec![
+                            FeatSpec { tags: vec![], bg: vec![M], scenarios: f1, rules: vec![r1, r2] },
+                            FeatSpec {
+                                tags: vec!["retry(2)".into()],
+                                bg: vec![],
+                                scenarios: vec![scen(&[], &[M]), scen(&[], &[StepKind::Ambiguous]), scen(&["serial"], &[M])],
+                                rules: vec![],
+                            },
+                            feat(vec![scen(&[], &[M, M, M])]),
+                        ];
+                        cfg.items = vec![Item::Feat(0), Item::Err("e1".into()), Item::Feat(1), Item::Feat(2)];
+                        cfg.lazy = lazy;
+                        cfg.before = hooks;
+                        cfg.after = hooks;
+                        cfg.conc_builder = b;
+                        cfg.conc_cli = c;
+                        cfg.fail_fast_builder = ff;
+                        cfg.plan.gates = if gated { GateMode::Steps } else { GateMode::None };
+                        cfg.clock_budget = 3;
+                        cfg.clock_step = Duration::from_secs(3);
+                        let infos = cfg.scen_infos();
+                        let p = Outcome::PanicString;
+                        // F1.S11: fails three times at its last own step, passes the 4th attempt
+                        let s11 = infos.iter().find(|i| i.name == "F1.S11").expect("S11");
+                        cfg.plan.outcomes.insert(s11.calls.last().unwrap().key.clone(), vec![p, p, p, Outcome::Pass]);
+                        // F1.R2.S2: fails all four attempts (final failure, delayed retries)
+                        let r2s2 = infos.iter().find(|i| i.name == "F1.R2.S2").expect("R2.S2");
+                        cfg.plan.outcomes.insert(r2s2.calls.last().unwrap().key.clone(), vec![p, p, p, p, Outcome::Pass]);
+                        cfg.bound = Some(if gated { 1 } else if tier == Tier::Quick { 1 } else { 2 });
+                        cfg.max_execs = if tier == Tier::Quick { 2_000 } else { 20_000 };
+                        cfg.name = format!(
+                            "big/b{b:?}|c{c:?}|h{}|ff{}|lazy{}|g{}",
+                            u8::from(hooks),
+                            u8::from(ff),
+                            u8::from(lazy),
+                            u8::from(gated)
+                        );
+                        out.push(cfg);
+                    }
+                }
+            }
+        }
+    }
+    // default limit 64 / unlimited / a limit of 65 observed with 70 ready scenarios
+    for (b, c) in [(None, None), (Some(None), None), (Some(Some(65)), None), (Some(Some(3)), Some(64))] {
+        let mut cfg = base(format!("big/wide|b{b:?}|c{c:?}"));
+        cfg.feats = vec![feat((0..70).map(|_| scen(&[], &[M])).collect())];
+        cfg.items = vec![Item::Feat(0)];
+        cfg.conc_builder = b;
+        cfg.conc_cli = c;
+        cfg.plan.gates = GateMode::Steps;
+        cfg.bound = Some(0);
+        cfg.max_execs = 3;
+        cfg.expect_conservation = true;
+        out.push(cfg);
+    }
+    out
+}
+
 pub fn family(name: &str, tier: Tier) -> Vec<Config> {
     match name {
         "seq" => fam_seq(tier),
@@ -1381,6 +1536,7 @@ pub fn family(name: &str, tier: Tier) -> Vec<Config> {
         "resolve" => fam_resolve(tier),
         "multi" => fam_multi(tier),
         "dup" => fam_dup(tier),
+        "big" => fam_big(tier),
         other => panic!("unknown family {other}"),
     }
 }
@@ -1402,7 +1558,7 @@ pub fn families_for(prop: &str) -> Vec<&'static str> {
         other => panic!("no Engine A families for {other}"),
     };
     let mut v: Vec<&'static str> = own.to_vec();
-    for f in ["seq", "frame", "conc", "serial", "retry", "ff", "panic", "l1", "l1x", "multi", "dup"] {
+    for f in ["seq", "frame", "conc", "serial", "retry", "ff", "panic", "l1", "l1x", "multi", "dup", "big"] {
         if !v.contains(&f) {
             v.push(f);
         }
